@@ -71,3 +71,40 @@ Fixpoint encodable (x : value) : bool :=
   | VStruct kv => forallb (fun kv => encodable (snd kv)) kv
   | VOther => false
   end.
+
+(* The oracle for Float.String(): strconv.FormatFloat(f, 'g', -1, 64) prints the
+   shortest decimal that reads back as f under correct rounding (strconv's
+   documented guarantee), in a form that is a JSON number with a fraction or an
+   exponent (Float.String appends ".0" otherwise).  Stated for the floats that
+   occur in x: the text for each of them, read as one number token by the
+   reference, is that float. *)
+Fixpoint float_texts_read_back (fstr : N -> list N) (x : value) : Prop :=
+  match x with
+  | VFloat bits => spec_number (fstr bits) = SOk (JFloat bits) []
+  | VList l | VTuple l =>
+      (fix go (l : list value) : Prop :=
+         match l with [] => True | e :: t => float_texts_read_back fstr e /\ go t end) l
+  | VDict kv =>
+      (fix go (l : list (value * value)) : Prop :=
+         match l with [] => True | (_, v) :: t => float_texts_read_back fstr v /\ go t end) kv
+  | VStruct kv =>
+      (fix go (l : list (list N * value)) : Prop :=
+         match l with [] => True | (_, v) :: t => float_texts_read_back fstr v /\ go t end) kv
+  | _ => True
+  end.
+
+(* The plain reading, for JSON-representable values: no coercion, no merging
+   of members (Properties.reading_exact: it equals jread on representable x). *)
+Fixpoint jplain (x : value) : json :=
+  match x with
+  | VNone => JNull
+  | VBool b => JBool b
+  | VInt z => JInt z
+  | VFloat bits => JFloat bits
+  | VStr s => JStr s
+  | VList l | VTuple l => JArr (map jplain l)
+  | VDict kv =>
+      JObj (sort_by_key (map (fun kv => (match fst kv with VStr k => k | _ => [] end, jplain (snd kv))) kv))
+  | VStruct kv => JObj (sort_by_key (map (fun kv => (fst kv, jplain (snd kv))) kv))
+  | VOther => JNull
+  end.
